@@ -538,3 +538,23 @@ package ristretto
 //@   requires c == nil || c.cachePolicy != nil
 //@   modifies gcMaxCostLast
 //@   ensures [C03] c != nil ==> result == gcMaxCostLast-gcSum(c.cachePolicy.evict.keyCosts)
+
+//@ spec queued[K Key, V any](c *Cache[K, V], pos int) *Item[V] = gcAt(c.setBuf, pos)
+
+//@ func (c *Cache) SetWithTTL(key K, value V, cost int64, ttl time.Duration) bool
+//@   requires c == nil || (wfCache(c) && !gcClosed(c.setBuf) && gcCap(c.setBuf) > 0)
+//@   modifies shardOf(cacheSM(c), khash(c, key)).data[*], cacheSM(c).expiryMap.buckets[*], cacheSM(c).expiryMap.buckets[*][*], gcChan(c.setBuf), gcMtot[*]
+//@   ensures [C15] #inert !old(isOpen(c)) ==> !result && gcTail(c.setBuf) == old(gcTail(c.setBuf)) && forall k uint64 :: smHas(cacheSM(c), k) == old(smHas(cacheSM(c), k)) && sameEntry(smEntry(cacheSM(c), k), old(smEntry(cacheSM(c), k)))
+//@   ensures [C07] #negative ttl < 0 ==> !result && gcTail(c.setBuf) == old(gcTail(c.setBuf)) && forall k uint64 :: smHas(cacheSM(c), k) == old(smHas(cacheSM(c), k)) && sameEntry(smEntry(cacheSM(c), k), old(smEntry(cacheSM(c), k)))
+//@   ensures [C13] #others forall k uint64 :: k != khash(c, key) ==> smHas(cacheSM(c), k) == old(smHas(cacheSM(c), k)) && sameEntry(smEntry(cacheSM(c), k), old(smEntry(cacheSM(c), k)))
+//@   ensures [C13] #domain smHas(cacheSM(c), khash(c, key)) == old(smHas(cacheSM(c), khash(c, key)))
+//@   ensures [C06,C02] #overwrite smHas(cacheSM(c), khash(c, key)) && !sameEntry(smEntry(cacheSM(c), khash(c, key)), old(smEntry(cacheSM(c), khash(c, key)))) ==> result && smEntry(cacheSM(c), khash(c, key)).key == khash(c, key) && smEntry(cacheSM(c), khash(c, key)).conflict == kconf(c, key) && gcSameRef(smEntry(cacheSM(c), khash(c, key)).value, value) && conflictOK(old(smEntry(cacheSM(c), khash(c, key))), kconf(c, key))
+//@   ensures [C07] #expiry smHas(cacheSM(c), khash(c, key)) && !sameEntry(smEntry(cacheSM(c), khash(c, key)), old(smEntry(cacheSM(c), khash(c, key)))) ==> (ttl == 0 ==> smEntry(cacheSM(c), khash(c, key)).expiration.IsZero()) && (ttl > 0 ==> smEntry(cacheSM(c), khash(c, key)).expiration == gcNow().Add(ttl))
+//@   ensures [C06,C04] #enqueued gcTail(c.setBuf) == old(gcTail(c.setBuf))+1 ==> result && queued(c, old(gcTail(c.setBuf))) != nil && queued(c, old(gcTail(c.setBuf))).wait == nil && queued(c, old(gcTail(c.setBuf))).Key == khash(c, key) && queued(c, old(gcTail(c.setBuf))).Conflict == kconf(c, key) && gcSameRef(queued(c, old(gcTail(c.setBuf))).Value, value) && queued(c, old(gcTail(c.setBuf))).Cost == cost && (queued(c, old(gcTail(c.setBuf))).flag == itemNew || queued(c, old(gcTail(c.setBuf))).flag == itemUpdate)
+//@   ensures [C04,C13] #flag gcTail(c.setBuf) == old(gcTail(c.setBuf))+1 && !sameEntry(smEntry(cacheSM(c), khash(c, key)), old(smEntry(cacheSM(c), khash(c, key)))) ==> queued(c, old(gcTail(c.setBuf))).flag == itemUpdate
+//@   ensures [C04,C13] #flagnew gcTail(c.setBuf) == old(gcTail(c.setBuf))+1 && queued(c, old(gcTail(c.setBuf))).flag == itemUpdate ==> old(smHas(cacheSM(c), khash(c, key))) && conflictOK(old(smEntry(cacheSM(c), khash(c, key))), kconf(c, key)) && isItem(smEntry(cacheSM(c), khash(c, key)), queued(c, old(gcTail(c.setBuf))))
+//@   ensures [C06] #qexpiry gcTail(c.setBuf) == old(gcTail(c.setBuf))+1 ==> (ttl == 0 ==> queued(c, old(gcTail(c.setBuf))).Expiration.IsZero()) && (ttl > 0 ==> queued(c, old(gcTail(c.setBuf))).Expiration == gcNow().Add(ttl))
+//@   ensures [C04,C17] #dropped !result && old(isOpen(c)) && ttl >= 0 ==> gcTail(c.setBuf) == old(gcTail(c.setBuf)) && sameEntry(smEntry(cacheSM(c), khash(c, key)), old(smEntry(cacheSM(c), khash(c, key)))) && old(gcTail(c.setBuf))-old(gcHead(c.setBuf)) >= gcCap(c.setBuf)
+//@   ensures [C17] #dropcount c != nil && c.Metrics != nil ==> mtot(c.Metrics, dropSets) == old(mtot(c.Metrics, dropSets))+ite(!result && old(isOpen(c)) && ttl >= 0, uint64(1), uint64(0))
+//@   ensures [C17] #others-metrics forall q *Metrics, u metricType :: u != dropSets ==> mtot(q, u) == old(mtot(q, u))
+//@   ensures [C06] #accepted result && gcTail(c.setBuf) == old(gcTail(c.setBuf)) ==> old(smHas(cacheSM(c), khash(c, key))) && conflictOK(old(smEntry(cacheSM(c), khash(c, key))), kconf(c, key)) && smEntry(cacheSM(c), khash(c, key)).key == khash(c, key) && gcSameRef(smEntry(cacheSM(c), khash(c, key)).value, value)
